@@ -8,6 +8,7 @@ for marker,order,desc in (('Default','le','little endian'),('BigEndian','be','bi
     for t,n,lim in types:
         out.append(f'''    impl Encoding<{t}> for {marker} {{
         open spec fn enc_ok(v: &{t}) -> bool {{ true }}
+        open spec fn canon(v: &{t}) -> bool {{ true }}
         /// {n} byte(s), {desc}
         open spec fn spec_enc(v: &{t}) -> Seq<u8> {{ {order}_seq{n}(*v as nat) }}
         open spec fn spec_dec(b: Seq<u8>) -> Option<({t}, int)> {{ if b.len() < {n} {{ None }} else {{ Some(({order}_val{n}(b.subrange(0, {n})) as {t}, {n})) }} }}
